@@ -424,6 +424,9 @@ fn twin_c02_c16() -> R {
                         if !has_host {
                             lines.push(("host".into(), host.clone()));
                         }
+                        // C13 is an "only if": an inherited Authorization that MAY be kept may also be dropped (second accepted head)
+                        let mut lines_alt = lines.clone();
+                        lines_alt.extend(kept.iter().filter(|(k, _)| !(depth == 1 && k == "authorization")).cloned());
                         lines.extend(kept);
                         let hosts = lines.iter().filter(|(k, _)| k == "host").count();
                         let mut sr = flow.proceed();
@@ -435,11 +438,12 @@ fn twin_c02_c16() -> R {
                             continue;
                         }
                         let want = expected_head("GET", &pq, "HTTP/1.1", &lines);
+                        let want_alt = expected_head("GET", &pq, "HTTP/1.1", &lines_alt);
                         for sizes in [vec![4096usize], vec![0, 1, 24, 40], vec![want.len()], vec![33], vec![64, 20, 64]] {
                             n += 1;
                             let mut f = clone_flow(orig, add, depth, policy, target)?;
                             let got = send_head(&mut f, &sizes)?;
-                            if got != want {
+                            if got != want && got != want_alt {
                                 return Err(format!(
                                     "head mismatch (depth {} policy {:?} target {} sizes {:?}):\n got {:?}\nwant {:?}",
                                     depth, policy, target, sizes, String::from_utf8_lossy(&got), String::from_utf8_lossy(&want)
@@ -1445,10 +1449,10 @@ fn twin_c13_c14_c15() -> R {
             match rr.proceed() {
                 Some(RecvResponseResult::Redirect(mut red)) => {
                     if st == 304 {
-                        return Err("304 entered the redirect state".into());
+                        return Err("[C15] 304 entered the redirect state".into());
                     }
                     if red.status().as_u16() != st {
-                        return Err("redirect reports a different status".into());
+                        return Err("[C15] redirect reports a different status".into());
                     }
                     let want: Option<Method> = if st == 307 || st == 308 {
                         if needs_body || *m == Method::DELETE { None } else { Some(m.clone()) }
@@ -1462,33 +1466,33 @@ fn twin_c13_c14_c15() -> R {
                         (None, None) => {}
                         (Some(f), Some(w)) => {
                             if *f.method() != w {
-                                return Err(format!("{} {:?}: redirected with {:?}, want {:?}", st, m, f.method(), w));
+                                return Err(format!("[C15] {} {:?}: redirected with {:?}, want {:?}", st, m, f.method(), w));
                             }
                             if f.uri().to_string() != "http://b.test/z?q" {
-                                return Err(format!("target {:?}", f.uri().to_string()));
+                                return Err(format!("[C14] target {:?}", f.uri().to_string()));
                             }
                             let mut sr = f.proceed();
                             let mut o = vec![0u8; 1024];
                             let k = sr.write(&mut o).map_err(|e| format!("{:?}", e))?;
                             let h = String::from_utf8_lossy(&o[..k]).to_lowercase();
                             if h.contains("authorization") {
-                                return Err("authorization leaked to another host".into());
+                                return Err("[C13] authorization leaked to another host".into());
                             }
                             if !h.contains("host: b.test") || !h.starts_with(&format!("{} /z?q http/1.1\r\n", w.as_str().to_lowercase())) {
-                                return Err(format!("request line / host wrong: {:?}", h));
+                                return Err(format!("[C14] request line / host wrong: {:?}", h));
                             }
                         }
-                        (a, b) => return Err(format!("{} {:?}: followed={} want {:?}", st, m, a.is_some(), b)),
+                        (a, b) => return Err(format!("[C15] {} {:?}: followed={} want {:?}", st, m, a.is_some(), b)),
                     }
                 }
                 Some(RecvResponseResult::Cleanup(_)) if st == 304 => {}
-                _ => return Err(format!("status {}: wrong state", st)),
+                _ => return Err(format!("[C15] status {}: wrong state", st)),
             }
         }
     }
     // chains: auth policy against the ORIGINAL uri, resolution against the CURRENT uri
     let hops: [(&str, &str, bool); 8] = [
-        // (location, expected uri, authorization kept under SameHost)
+        // (location, expected uri, authorization MAY be kept under SameHost - C13 is an "only if")
         ("/p1", "http://a.test/p1", true),
         ("p2?x=1", "http://a.test/p2?x=1", true),
         ("https://a.test/s", "https://a.test/s", true),
@@ -1512,20 +1516,44 @@ fn twin_c13_c14_c15() -> R {
             };
             flow = red.as_new_flow(policy).map_err(|e| format!("{} -> {:?}", loc, e))?.ok_or("not followed")?;
             if flow.uri().to_string() != *want_uri {
-                return Err(format!("Location {:?} resolved to {:?}, want {:?}", loc, flow.uri().to_string(), want_uri));
+                return Err(format!("[C14] Location {:?} resolved to {:?}, want {:?}", loc, flow.uri().to_string(), want_uri));
             }
             let mut probe = clone_chain(policy, &hops, loc)?;
             let mut o = vec![0u8; 2048];
             let k = probe.write(&mut o).map_err(|e| format!("{:?}", e))?;
             let h = String::from_utf8_lossy(&o[..k]).to_lowercase();
             let has_auth = h.contains("authorization: secret");
-            let want_auth = policy == RedirectAuthHeaders::SameHost && *keep;
-            if has_auth != want_auth {
-                return Err(format!("hop {:?} policy {:?}: authorization present {} want {}", loc, policy, has_auth, want_auth));
+            let may_auth = policy == RedirectAuthHeaders::SameHost && *keep;
+            if has_auth && !may_auth {
+                return Err(format!("[C13] hop {:?} policy {:?}: authorization present although it must not be", loc, policy));
             }
             if h.contains("cookie:") || h.contains("content-length:") {
-                return Err(format!("hop {:?}: stale cookie / content-length sent: {:?}", loc, h));
+                return Err(format!("[C13] hop {:?}: stale cookie / content-length sent: {:?}", loc, h));
             }
+        }
+    }
+    // an https original request: a downgrade to http on the same host must never carry the credential (first or later hop)
+    for hops2 in [vec!["http://a.test/down"], vec!["https://b.test/x", "http://a.test/back"], vec!["/same", "http://a.test/later"]] {
+        n += 1;
+        let req = Request::get("https://a.test/start").header("authorization", "secret").body(()).unwrap();
+        let mut flow = Flow::new(req).map_err(|e| format!("{:?}", e))?;
+        for loc in &hops2 {
+            let mut rr = to_recv_response_from(flow)?;
+            let head = format!("HTTP/1.1 302 Found\r\nLocation: {}\r\nContent-Length: 0\r\n\r\n", loc);
+            rr.try_response(head.as_bytes()).map_err(|e| format!("{:?}", e))?;
+            let mut red = match rr.proceed() {
+                Some(RecvResponseResult::Redirect(f)) => f,
+                _ => return Err("not Redirect".into()),
+            };
+            flow = red.as_new_flow(RedirectAuthHeaders::SameHost).map_err(|e| format!("{} -> {:?}", loc, e))?.ok_or("not followed")?;
+        }
+        let target = flow.uri().to_string();
+        let mut sr = flow.proceed();
+        let mut o = vec![0u8; 2048];
+        let k = sr.write(&mut o).map_err(|e| format!("{:?}", e))?;
+        let h = String::from_utf8_lossy(&o[..k]).to_lowercase();
+        if target.starts_with("http://") && h.contains("authorization") {
+            return Err(format!("[C13] https original, hops {:?}: credential sent in clear text to {}", hops2, target));
         }
     }
     // errors, never panics
@@ -1541,7 +1569,7 @@ fn twin_c13_c14_c15() -> R {
             match r {
                 Ok(Ok(true)) if ok => {}
                 Ok(Err(_)) if !ok => {}
-                other => return Err(format!("Location {:?}: {:?}", String::from_utf8_lossy(loc), other.map(|x| x.is_ok()))),
+                other => return Err(format!("[C14] Location {:?}: {:?}", String::from_utf8_lossy(loc), other.map(|x| x.is_ok()))),
             }
         }
     }
@@ -1550,7 +1578,7 @@ fn twin_c13_c14_c15() -> R {
     rr.try_response(b"HTTP/1.1 302 Found\r\nContent-Length: 0\r\n\r\n").map_err(|e| format!("{:?}", e))?;
     if let Some(RecvResponseResult::Redirect(mut red)) = rr.proceed() {
         if red.as_new_flow(RedirectAuthHeaders::Never).is_ok() {
-            return Err("missing Location not reported".into());
+            return Err("[C14] missing Location not reported".into());
         }
     }
     Ok((n, n))
